@@ -284,6 +284,12 @@ fn cmd_run(args: &[String]) -> i32 {
             *probes.entry(k.clone()).or_insert(0) += v;
         }
         *sched_kinds.entry(case.sched.kind.clone()).or_insert(0) += 1;
+        if case.records.len() >= 1000 {
+            *probes.entry("records>=1000".to_string()).or_insert(0) += 1;
+        }
+        if case.records.len() >= 10000 {
+            *probes.entry("records>=10000".to_string()).or_insert(0) += 1;
+        }
         for (k, v) in &case.params {
             let vs = match v {
                 serde_json::Value::String(s) => format!("{:?}", s),
